@@ -83,6 +83,8 @@ class Sim:
                     self.model.append(p)
             self.o.set_phosphosites(arg)
             self.verify("set_phosphosites(%r)" % (list(arg) if isinstance(arg, list) else arg,))
+            if args.get("check_kappa") and len(self.model) >= 3:
+                self.apply_kappa()
         elif op == "clear":
             self.model = []
             self.cleared = True
@@ -97,12 +99,7 @@ class Sim:
             self.verify(args["q"])
             self.flags.add("interleaved-query")
         elif op == "kappa":
-            got = self.o.get_kappa_after_phosphorylation()
-            want = util.sp(self.phos_string(self.model)).get_kappa()
-            self.ctx.check((got == -1) == (want == -1) and ref.close(got, want), "kappa-after-phos",
-                           "get_kappa_after_phosphorylation()=%r, kappa of %s is %r" % (got, self.phos_string(self.model), want))
-            self.verify("kappa read-out")
-            self.flags.add("kappa-readout")
+            self.apply_kappa()
         elif op == "dist":
             k = len(self.model)
             if k > 4:
@@ -121,6 +118,14 @@ class Sim:
             self.verify("distribution read-out")
             self.flags.add("dist-readout(k=%d)" % k)
 
+    def apply_kappa(self):
+        got = self.o.get_kappa_after_phosphorylation()
+        want = util.sp(self.phos_string(self.model)).get_kappa()
+        self.ctx.check((got == -1) == (want == -1) and ref.close(got, want), "kappa-after-phos",
+                       "get_kappa_after_phosphorylation()=%r, kappa of %s is %r" % (got, self.phos_string(self.model), want))
+        self.verify("kappa read-out")
+        self.flags.add("kappa-readout(k=%d)" % min(len(self.model), 6))
+
     def finish(self):
         nt = bool(self.flags & {"out-of-range", "non-STY", "duplicate", "set-after-clear"})
         return nt, sorted(self.flags) + ["steps:%d" % min(self.nsteps, 20)]
@@ -132,8 +137,8 @@ def positions(N):
 
 def ops_for(N):
     return {
-        "set": st.fixed_dictionaries({"kind": st.sampled_from(["int", "list", "list", "tuple", "shared-list", "shared-list"]), "vals": st.lists(positions(N), min_size=1, max_size=5),
-                                      "grow": st.booleans()}),
+        "set": st.fixed_dictionaries({"kind": st.sampled_from(["int", "list", "list", "tuple", "shared-list", "shared-list"]), "vals": st.lists(positions(N), min_size=1, max_size=8),
+                                      "grow": st.booleans(), "check_kappa": st.booleans()}),
         "query": st.fixed_dictionaries({"q": st.sampled_from(["get_kappa", "get_deltaMax", "get_Omega", "get_delta", "get_FCR", "get_phosphosequence"])}),
         "clear": st.just(None),
         "kappa": st.just(None),
